@@ -232,6 +232,10 @@ impl BitFont {
         // let flags = u32::from_le_bytes(data[12..16].try_into().unwrap());
         let length = u32::from_le_bytes(data[16..20].try_into().unwrap()) as i32;
         let charsize = u32::from_le_bytes(data[20..24].try_into().unwrap()) as i32;
+        if charsize <= 0 || length < 0 {
+            // a glyph size of 0 makes any glyph count "fit"; the count is then used as a loop bound
+            return Err(FontError::LengthMismatch(data.len(), headersize).into());
+        }
         let expected_len = (length as u32 as usize).checked_mul(charsize as u32 as usize).and_then(|l| l.checked_add(headersize));
         if expected_len != Some(data.len()) {
             return Err(FontError::LengthMismatch(data.len(), expected_len.unwrap_or(usize::MAX)).into());
